@@ -891,15 +891,15 @@ func ruleIndexSeekAgreement(c *Ctx, r *Reporter) {
 	// reader: methods called on the index iterator before the data block is loaded, on the path where the index seek succeeded
 	idxF := c.Field("pkg/sstable", "Iterator", "indexIterator")
 	var methods []string
-	AllInstrs(seek, false, func(_ *ssa.Function, ins ssa.Instruction) {
-		call, ok := ins.(*ssa.Call)
+	for _, h := range withSameReceiverHelpers(seek) { // the positioning may sit in an extracted helper
+		call, ok := h.ins.(*ssa.Call)
 		if !ok || call.Call.StaticCallee() == nil || len(call.Call.Args) == 0 {
-			return
+			continue
 		}
 		if isLoadOfField(call.Call.Args[0], idxF) {
 			methods = append(methods, call.Call.StaticCallee().Name())
 		}
-	})
+	}
 	stepsBack := false
 	for _, m := range methods {
 		switch m {
